@@ -64,12 +64,28 @@ def field_ids(t):
 
 
 def replace_chain(t):
-    """x.replace(a,b).replace(c,d) -> (x, [(a,b),(c,d)]) ; otherwise (t, [])"""
+    """x.replace(a,b).replace(c,d) -> (x, [(a,b),(c,d)]) ; otherwise (t, []).  x.translate(str.maketrans({a: b, c: d}))
+    with one-character keys and replacement texts free of the keys is the same chain."""
     pairs = []
-    while t[0] == 'call' and t[1][0] == 'attr' and t[1][2] == 'replace' and len(t[2]) == 2 and \
-            all(a[0] == 'const' and isinstance(a[1], str) for a in t[2]):
-        pairs.append((t[2][0][1], t[2][1][1]))
-        t = t[1][1]
+    while True:
+        if t[0] == 'call' and t[1][0] == 'attr' and t[1][2] == 'replace' and len(t[2]) == 2 and \
+                all(a[0] == 'const' and isinstance(a[1], str) for a in t[2]):
+            pairs.append((t[2][0][1], t[2][1][1]))
+            t = t[1][1]
+            continue
+        if t[0] == 'call' and t[1][0] == 'attr' and t[1][2] == 'translate' and len(t[2]) == 1 and not t[3]:
+            tab = t[2][0]
+            if tab[0] == 'call' and tab[1] == ('attr', ('name', 'str'), 'maketrans') and len(tab[2]) == 1 and tab[2][0][0] == 'dict':
+                items = tab[2][0][1]
+                if all(k is not None and k[0] == 'const' and isinstance(k[1], str) and len(k[1]) == 1 and v[0] == 'const' and isinstance(v[1], str)
+                       for k, v in items):
+                    keys = {k[1] for k, _ in items}
+                    if not any(ch in v[1] for _, v in items for ch in keys):
+                        for k, v in reversed(items):
+                            pairs.append((k[1], v[1]))
+                        t = t[1][1]
+                        continue
+        break
     pairs.reverse()
     return t, pairs
 
